@@ -456,5 +456,52 @@ def run_c15(R):
         R.ok("C15.containers", "count-distinct", "COUNT(DISTINCT) inserts into HashSet<Value>", up.loc())
     else:
         R.violation("C15.containers", "count-distinct", "COUNT(DISTINCT) does not collect into a set of values", [up.loc()])
+    _update_state(R)
     R.assume("the algebraic laws themselves (commutativity / associativity of the folds over runtime values) are not decided; only the structural "
              "necessary conditions above are")
+
+
+def _update_state(R):
+    """C15.state: the update phase keeps no memory besides the per-(group, aggregate) tables"""
+    P = R.prog
+    R.rule("C15.state", "the update phase of the aggregate engine branches on no engine state other than the group tables (addressed by this row's "
+                        "group key and this aggregate's index): a memo or cursor shared between rows, groups or aggregates makes the result "
+                        "depend on the order in which lines arrive")
+    a = P.adts.get(AGG + "AggregateExecutionEngine")
+    if not a:
+        from .core import EngineError
+        raise EngineError("AggregateExecutionEngine type not found")
+    group_fields, other_fields = set(), set()
+    for v in a["variants"]:
+        for fl in v["fields"]:
+            if fl["ty"].startswith("alloc::collections::btree::map::BTreeMap<" + AGG + "GroupKey") or \
+                    fl["ty"].startswith("std::collections::hash::map::HashMap<" + AGG + "GroupKey"):
+                group_fields.add(fl["name"])
+            else:
+                other_fields.add(fl["name"])
+    entry = R.need_fn(ENGINE + "execute_update")
+    reach = P.reachable([entry])
+    n = 0
+    for k in sorted(reach):
+        f = P.fns[k]
+        owner = f
+        while owner.kind == "Closure" and owner.parent_key in P.fns:
+            owner = P.fns[owner.parent_key]
+        if owner.raw.get("impl_self") != AGG + "AggregateExecutionEngine" or f.kind == "Closure":
+            continue
+        n += 1
+
+        def src(pl, f=f):
+            return pl.get("l") == 1 and bool(set(place_fields(pl)) & other_fields)
+        T, sinks, lines = F.forward_taint(f, src)
+        key = f.spath.split("::")[-1]
+        if sinks:
+            flds = sorted(other_fields)
+            R.violation("C15.state", key + "|" + ",".join(flds),
+                        "%s branches on engine state outside the group tables (field %s, read at line %s): what is done with a row then depends on "
+                        "the rows seen before it, beyond the group's own aggregate state" % (f.path, "/".join(flds), lines[:1]),
+                        [f.loc(sinks[0])])
+        else:
+            R.ok("C15.state", key, "no branch depends on a non-group field (engine fields: %s)" % sorted(group_fields | other_fields), f.loc(),
+                 nontrivial=(n <= 3))
+    R.floor("C15.state", 4)
